@@ -15,6 +15,62 @@ CLAIMS = {
                  "of any length). This is the right level because the laws quantify over all words; the tests evaluate ~15 pairs.",
         "note": STD_NOTE + " Words longer than 5 characters are outside the bound.",
     },
+    "C19": {
+        "level": "The C16/C17 kernel harnesses with ALL CBMC pointer/bounds checks selected and hook H3 compiled in: for all contents of the "
+                 "listed shapes and from arbitrary earlier buffer states (matrix smaller/equal/larger than needed, Jaccard buffers shorter/longer) "
+                 "every unchecked access of the distance matrix (row AND column below the dimension), the cost vectors and the Jaccard merge is "
+                 "in range. Memory safety of unchecked indexing is exactly what a bounded model checker with pointer checks decides.",
+        "note": STD_NOTE + " NOT covered: the trigram counters (counts.get_unchecked_mut in TrigramIndex::prepare is not executable within memory).",
+    },
+    "C06": {
+        "level": "Kernel level only. Solver-decided on real code: (LS-topk) LimitSortIter returns exactly min(limit,n) distinct input items in "
+                 "comparator order with no better item omitted, for all keys, n <= 7, limit 1..6 - i.e. never more than limit, never twice, and "
+                 "the first `limit` of the unlimited list; (TM-local) a record's verdict is unchanged by scoring another record in between. The "
+                 "composition into Store::search is an argument in DESIGN.md, not a solver result.",
+        "note": STD_NOTE + " limit = 0 with non-empty input is excluded (Kani artefact F13). Store::search's wiring and the index cap are not executed.",
+    },
+    "C07": {
+        "level": "Kernel level only. Solver-decided on real code: compare_hits is the documented lexicographic order on ALL score vectors (strict weak "
+                 "order, ties only when all nine components incl. rating are equal) and LimitSortIter's output is determined by the multiset of keys "
+                 "when they are distinct (so independent of insertion order). That two hits are ordered by their own vectors regardless of other "
+                 "records is glued from TM-local (C06).",
+        "note": STD_NOTE + " Store-level insertion-order experiments are not executable under Kani (DESIGN F10/F12).",
+    },
+    "C03": {
+        "level": "Word level. Solver-decided on the REAL word_match: for every title word of 1-3 letters, every prefix length, finished/unfinished, "
+                 "the listed stem lengths, and ALL characters/classes/POS flags, the prefix query matches with exactly the typed span and zero typos; "
+                 "and on the real collect_grams: a prefix shares a gram with its word (n <= 5). The chain to 'the record is among the hits' is glued.",
+        "note": STD_NOTE + " Matcher shapes above 3x3 exceed 40 GB; index posting lists and the tokeniser are not executed.",
+    },
+    "C13": {
+        "level": "Word level. Solver-decided on the REAL word_match: a finished exact copy of a word of 1-3 letters matches in full with zero typos for "
+                 "all characters/classes/flags and the listed stems. The multi-word assignment in text_match (either order) is NOT decided.",
+        "note": STD_NOTE + " Only the per-word half of the property is claimed.",
+    },
+    "C05": {
+        "level": "Word/text level. Solver-decided on REAL code: every successful word match has spans differing by at most one and within the word "
+                 "(WM-contract), an exact prefix is highlighted exactly (WM-prefix), and at the text level no title span exceeds the typed stretch + 1 "
+                 "(TM-span), for all contents of the listed shapes (words <= 3 letters).",
+        "note": STD_NOTE + " The 'no unrelated hits' half rests on the index, which is only decided at the gram-set level (C18).",
+    },
+    "C09": {
+        "level": "Match-structure level. Solver-decided on REAL text_match/score/hit_matches: spans are word-aligned, start at the first character, "
+                 "non-empty, end inside the word, at most one per word, in order; a kept hit for a non-empty query has a span; an empty query yields none. "
+                 "That highlight() renders exactly these spans as alternating markers is a 15-line reading, not a solver result (F11).",
+        "note": STD_NOTE + " Shapes: one or two words of 1-3 letters.",
+    },
+    "C01": {
+        "level": "Absence of panics, arithmetic overflow, failed unwrap/borrow and out-of-range indexing - decided by CBMC's own checks plus the "
+                 "harness assertion 'typo penalty never exceeds the matched length' - in the real matcher, text matcher, scorer, filter and the "
+                 "distance/Jaccard/LimitSort kernels, for ALL contents of the listed small shapes. Checked == unchecked follows from 'no overflow on any path'.",
+        "note": STD_NOTE + " Tokeniser, normalisation, Store, registry and highlight are not executed; the joined-word shapes (where the documented "
+                           "underflow lives) need > 28 GB and are in the thorough tier only if they fit.",
+    },
+    "C18": {
+        "level": "Gram-set level only: TrigramIter yields exactly the grams of the definition (n <= 6), collect_grams returns their duplicate-free "
+                 "sorted set (n <= 5), and the cap/ordering primitive (LimitSortIter) keeps the best `cap` items. The index's add/prepare are not executable.",
+        "note": STD_NOTE + " 'only existing records', 'no duplicates', 'all sharers listed' are NOT decided.",
+    },
     "C17": {
         "level": "Bounded model checking of the real Jaccard::<char>::similarity / rel_dist / simple_similarity: for every listed pair of "
                  "lengths (up to 3x3 quick, 5x5 thorough) the value equals |A∩B|/|A∪B| for ALL characters, is symmetric, in [0,1], and "
@@ -23,10 +79,23 @@ CLAIMS = {
     },
 }
 
-_WIP = "check under construction in this session (see DESIGN.md); not claimed until its quick command passes on the unchanged tree"
-NOT_APPLICABLE = {p: _WIP for p in ["C01", "C02", "C03", "C04", "C05", "C06", "C07", "C08", "C09", "C10", "C12", "C13", "C14", "C15", "C18", "C19"]}
-NOT_APPLICABLE["C11"] = ("needs the per-language compose/reduce tables and Text::normalize end-to-end; Lang::unicode_compose/reduce are not "
-                         "executable under Kani even on concrete input (memcmp-guarded Option, DESIGN F5) and nothing else installed "
-                         "executes this Rust symbolically")
-NOT_APPLICABLE["C20"] = ("the registry API is &str-only and runs the tokeniser on every call; Kani did not finish even with every title and "
-                         "query the empty string (DESIGN F10)")
+
+NOT_APPLICABLE = {
+    "C02": "highlight() builds a String from symbolic chars (UTF-8 width, length and offset all symbolic): symbolic execution did not finish "
+           "(DESIGN F11); ids/positions need Store::search, which is not executable within memory (F10/F12)",
+    "C04": "needs the real word matcher on words of >= 5 letters: word_match at 4x4 already exceeds 40 GB under CBMC (3x3: 2.4 M variables), "
+           "so no instance of the property's quantifier domain can be decided (DESIGN F14)",
+    "C08": "every rule compares two full searches on titles of 5-9 letter words; the matcher is only decidable up to 3 letters (F14) and the "
+           "store level is not executable (F10/F12); an L3-only version would assume the match vectors instead of computing them",
+    "C10": "Store histories are not executable under Kani: Store::add + top_ixs on two records exceeds 20 GB, Vec growth inside Store trips "
+           "Kani's realloc model, TrigramIndex::add on one 1-letter symbolic record runs out of memory (DESIGN F12); only the scratch-state "
+           "lemmas (DL-hist, JAC-hist, TM-local) are decided, under C16/C17/C06",
+    "C11": "needs the per-language compose/reduce tables and Text::normalize end-to-end; Lang::unicode_compose/reduce are not executable "
+           "under Kani even on concrete input (memcmp-guarded Option, DESIGN F5) and nothing else installed executes this Rust symbolically",
+    "C12": "the empty-query path is Store::top_ixs over &Record with a title comparator: two records already exceed 20 GB (DESIGN F12); the "
+           "selection primitive itself is decided as LS-topk under C06/C07",
+    "C14": "joined / split spellings need text_match with the real matcher on a 1+2-letter title against a 3-letter query: > 28 GB (F14)",
+    "C15": "the tokeniser chain (normalize, split, strip, lower, set_* over Lang maps and Unicode tables) is not executable under Kani (F5/F6)",
+    "C20": "the registry API is &str-only and runs the tokeniser on every call; Kani did not finish even with every title and query the empty "
+           "string (DESIGN F10)",
+}
